@@ -523,13 +523,28 @@ def check_valid_inst(axioms, pc, claim, inst_terms=(), defined=(), timeout_ms=No
     terms = list(sks)
     insts = []
     unf = unfold(defs, [goal])
-    gidx = _ground_index([goal] + unf + ground[-40:])
-    for q in quants:
-        if q.is_forall():
-            m = ematch(q, gidx, list(strides))
-            if m is None:
-                m = instantiate(q, terms, cap=64) if terms else []
-            insts.extend(m)
+    roots = [goal] + unf + ground[-40:]
+    seen_inst = set()
+    for rnd in range(2):
+        gidx = _ground_index(roots)
+        pool = list(terms)
+        for (_b, gi) in gidx[0]:
+            if z3.is_int(gi) and not z3.is_int_value(gi) and not any(gi.eq(t) for t in pool) and len(pool) < 8:
+                pool.append(gi)
+        new = []
+        for q in quants:
+            if q.is_forall():
+                m = ematch(q, gidx, list(strides))
+                if m is None:
+                    m = instantiate(q, pool if rnd == 0 else terms, cap=64) if pool else []
+                for x in m:
+                    if x.get_id() not in seen_inst:
+                        seen_inst.add(x.get_id())
+                        new.append(x)
+        insts.extend(new)
+        if not new:
+            break
+        roots = new
     unf = unfold(defs, [goal] + insts)
     hints = list(hint_fn(sks, insts + unf, goal)) if hint_fn else []
     subs = path_equalities(ground)
@@ -569,17 +584,22 @@ def check_valid_inst(axioms, pc, claim, inst_terms=(), defined=(), timeout_ms=No
     if not has_q:
         if r == z3.sat:
             return "refuted", "z3", time.time() - t0, ground_model
+    # the ground weakening has a model: most likely a genuine counterexample; give the full problem a short budget
+    t2 = min(timeout_ms, 4000) if r == z3.sat else timeout_ms
     for mbqi in (False, True):
-        r2, s2, dt2 = _solve(assumptions, goal, timeout_ms, mbqi)
+        r2, s2, dt2 = _solve(assumptions, goal, t2, mbqi)
         if r2 == z3.unsat:
             be = "z3-mbqi" if mbqi else "z3"
             STATS["by_backend"][be] = STATS["by_backend"].get(be, 0) + 1
             return "proved", be, time.time() - t0, None
         if r2 == z3.sat:
             return "refuted", "z3", time.time() - t0, s2.model()
-    res, _ = run_cvc5(_to_smt2(assumptions, z3.Not(goal)))
+    res, _ = run_cvc5(_to_smt2(assumptions, z3.Not(goal)), timeout_ms=min(CVC5_TIMEOUT_MS, t2))
     if res == "unsat":
         STATS["by_backend"]["cvc5"] = STATS["by_backend"].get("cvc5", 0) + 1
         return "proved", "cvc5", time.time() - t0, None
-    # undecided.  A model of the ground weakening is kept as a *candidate* counterexample for replay.
-    return "unknown", "z3+cvc5", time.time() - t0, ground_model
+    if ground_model is not None:
+        # counter-model of the instantiated (ground) problem, full problem undecided: reported as failed, the
+        # model is a candidate counterexample for native replay
+        return "cex-ground", "z3-ground", time.time() - t0, ground_model
+    return "unknown", "z3+cvc5", time.time() - t0, None
